@@ -8,6 +8,13 @@ parallel-assignment hazards; exits: x86 ret, jump to a register, tail jump to a 
 address outside the graph.  One shard in eight takes functions of the compiled-C corpus instead
 (vlib.ccorpus: clang --target=i386 at -O0/-O1/-O2/-Os, lifted with the x86_32 model-call lifter).
 
+Hazard-directed stratum (vlib.iraliasgen, 24 cases per shard next to the 30 structured graphs): load / possibly
+aliasing store / use programs over cells @w[base + o] of one base, o in {0, 1, 2, 3, 4, 8, -1, -2, -3, -4} (negative
+ones as 32-bit wrapping constants), w in 8/16/32, the two cells drawn by relation (equal, contained, partial overlap,
+overlap through the wrap, adjacent, far; one case in five with a different base as control), orders load-store-use,
+store-load-use, load-store-load-use, ..., in straight-line code, across a diamond / if-then and through a counted loop,
+with base adjustments (push / pop like), parallel load+store AssignBlocks and free AssignBlocks in between.
+
 Both pipelines run on a copy: IRCFGSimplifierCommon(lifter).simplify(copy, head) and
 IRCFGSimplifierSSA(lifter).simplify(copy, head) (fresh lifter each: the SSA pipeline records its
 variable map in lifter.ssa_var).
@@ -34,6 +41,7 @@ A simplified graph that still contains a Phi is reported as <pipeline>:phi-left-
 from vlib.runner import Check, ShardResult, Failure
 from vlib import hyp
 from vlib import irgraphgen as gg
+from vlib import iraliasgen as ag
 from vlib.timeout import call_with_limit, TimeLimit
 
 _state = {}
@@ -228,12 +236,15 @@ class C36(Check):
     rule = ("Hypothesis: structured IR graphs of a complete function (vlib.irgraphgen: diamond / multi-way / counted, "
             "while and irreducible loops / loop through the head / early exit / swap and lost-copy loops / modelled "
             "calls / memory traffic / irgen's parallel-assignment hazards; exits ret, register, tail jump; <= 12 blocks; "
-            "x86_32 model-call lifter), plus, in one shard of eight, x86_32 functions compiled from generated C by clang at four "
+            "x86_32 model-call lifter), plus a hazard-directed stratum (vlib.iraliasgen, seeded PRNG, 24 of 54 cases per "
+            "shard): load / possibly-aliasing store / use over same-base cells @w[base+o], o in 0..4, 8, -1..-4 as wrapping "
+            "constants, w 8/16/32, cell pairs drawn by relation (equal / contained / partial / through the wrap / adjacent / "
+            "far; different-base controls), both orders, straight-line / diamond / loop, plus, in one shard of eight, x86_32 functions compiled from generated C by clang at four "
             "optimisation levels and lifted. IRCFGSimplifierCommon and IRCFGSimplifierSSA on a copy; original and simplified "
             "graph run on 8 initial states: ordered memory-write and call events, exit destination, EAX and ESP at the "
             "exit (SSA pipeline: read through the last assigned identifier its own map sends to the register). "
-            "Non-trivial: the graph has a loop or a diamond/branch and the SSA pipeline removed at least one "
-            "assignment; distinct by serialised graph.")
+            "Non-trivial: the graph has a loop or a diamond/branch (hazard-directed stratum: any layout) and the SSA "
+            "pipeline removed at least one assignment; distinct by serialised graph.")
     assumptions = ["operators without evaluation rule (call_func_*) are pure keyed hashes of their argument values",
                    "a memory write storing the value the cells already hold is not an observable event",
                    "the variable standing for an output register in the SSA-simplified graph is the most recently "
@@ -269,6 +280,22 @@ class C36(Check):
             for b, d in fails:
                 res.fail(b, d, {"graph": js})
         hyp.survey(strat, n, seed, one)
+        # hazard-directed stratum: load / possibly-aliasing store / use
+        import random
+        from vlib.runner import derive_seed
+        na = 150 if tier == "thorough" else 24
+        for i in range(na):
+            g = ag.alias_graph(voc(), random.Random(derive_seed(seed, "alias", i)))
+            info = {}
+            fails = judge({"graph": g}, res.counters, info)
+            for s in set(g["meta"]["shapes"]):
+                res.counters["shape:" + s] += 1
+            nt = info.get("ssa:removed", 0) > 0
+            js = gg.ser(g)
+            res.counters["alias-cases"] += 1
+            res.case(nontrivial_key=repr(js) if nt else None, sample=js if nt and i == 3 and shard % 4 == 0 else None)
+            for b, d in fails:
+                res.fail(b, d, {"graph": js})
         return res
 
     def run_lifted(self, res, seed, n):
